@@ -812,4 +812,18 @@ unescaped character of the set -/
 theorem C16_unescape_not_injective :
     unescape [0x20] = unescape [0x5c, 0x32, 0x30] ∧ escape (unescape [0x20]) ≠ [0x20] := by
   decide
+
+/-- what escaping is for: the escaped form of any string holds neither of the separators `@`
+and `/` nor any other character RFC 7622 forbids in a localpart (`"`, `&`, `'`, `:`, `<`, `>`)
+nor a space — so it can be placed before `@domain` and the address splits where it was joined
+(hypotheses `cSlash ∉ l`, `cAt ∉ l` of `C11_split_assemble`) -/
+theorem C16_escape_no_separator (s : Bytes) :
+    ∀ c ∈ [0x20, 0x22, 0x26, 0x27, 0x2f, 0x3a, 0x3c, 0x3e, 0x40], c ∉ escape s := by
+  intro c hc hm
+  have hset : c ∈ escSet := by
+    simp only [List.mem_cons, List.not_mem_nil, or_false] at hc
+    rcases hc with h | h | h | h | h | h | h | h | h <;> subst h <;> decide
+  have hb := C16_escape_clean s c hm hset
+  subst hb
+  revert hc; decide
 end XmppModel.Props.C16
